@@ -110,6 +110,12 @@ def binop(interp, op, a, b, node):
         return VBool(z3.And(a.z, b.z))
     if isinstance(op, ast.BitOr) and isinstance(a, VBool) and isinstance(b, VBool):
         return VBool(z3.Or(a.z, b.z))
+    cx, cy = concrete_int(x), concrete_int(y)
+    if cx is not None and cy is not None and isinstance(op, (ast.BitOr, ast.BitAnd, ast.BitXor, ast.LShift, ast.RShift)):
+        import operator as _op
+        f = {ast.BitOr: _op.or_, ast.BitAnd: _op.and_, ast.BitXor: _op.xor, ast.LShift: _op.lshift, ast.RShift: _op.rshift}[type(op)]
+        if not (isinstance(op, (ast.LShift, ast.RShift)) and not 0 <= cy <= 64):
+            return VInt(f(cx, cy))      # constants (regex flags and the like)
     raise Unsupported(f"int op {type(op).__name__}")
 
 
